@@ -1872,7 +1872,7 @@ static void DecodeLD(Word Index) {
                         }
                         CodeLen = 1 + AdrCnt;
                     }
-                } else if ((Shift >= 0) && (MakeXY(WAsmCode + 1, False))) {
+                } else if ((Shift >= 0) && (Shift <= 15) && (MakeXY(WAsmCode + 1, False))) {
                     if (ThisPar) {
                         if (Shift) {
                             WrError(ErrNum_ParNotPossible);
